@@ -912,26 +912,4 @@ theorem singleReplyOK_of (c : Cfg) (t : List Ev)
     cases d <;> simp [replyEvs, flat, flatEv, replyObs, sendObs]
   · rfl
 
-/-- everything but single_reply, at every point of the run -/
-theorem specSafety_run (c : Cfg) (n : Nat) : specSafety c (flat (run c n init).trace) = true := by
-  obtain ⟨hg, ho⟩ := run_GO c n init (init_Ginv c) (init_Oinv c)
-  have hn := run_nrs c n init (init_Ginv c) rfl
-  unfold specSafety
-  rw [phasesOK_of_reg c _ ho.reg, ho.ord, noRecvAfterSend_of_nrs _ hn, sendOK_of_SpOK c _ (Ginv_SpOK c _ hg)]
-  simp only [Bool.true_and, Bool.and_true, Bool.or_eq_true, Bool.not_eq_true']
-  cases hd : denied (flat (run c n init).trace)
-  · exact Or.inl rfl
-  · right
-    cases hf : forwarded (flat (run c n init).trace)
-    · rfl
-    · exact absurd (deny_noUp c n (denied_flat hd)) (forwarded_flat hf)
-
-theorem spec_final (c : Cfg) (hex : (final c).exhausted = false) : spec c (flat (final c).trace) = true := by
-  unfold spec
-  rw [show (final c).trace = (run c fuel init).trace from rfl, specSafety_run c fuel]
-  simp only [Bool.true_and]
-  apply singleReplyOK_of
-  intro ha hnt hno
-  exact single_reply_of c (final c) (run_Ginv c fuel init (init_Ginv c)) (final_halted c) ha hnt hno hex
-
 end MosnVerif.Model.FilterSpec
